@@ -537,8 +537,8 @@ COLLS = {
     'C08': dict(x=['std::vec::Vec', 'contents differ', 'returned values differ', 'capacity:', 'capacity ', 'overwrote a neighbouring allocation', 'yielded', 'len() of the iterator', 'accounted', 'lost'],
                 note='PARTIAL: list-function refinement proved for the modelled operations; capacity clauses and unmodelled operations are checked against std::vec::Vec in lock-step only'),
     'C16': dict(x=['split_off capacities', 'split_off part', 'changed the remaining part', 'changed the split-off part', 'parts:'],
-                ops=['split_off'],
-                note='PARTIAL: split_off (rotate in place) proved against its specification; split_at/first/last, partition, merge and part independence are checked on the implementation only'),
+                ops=['split_off', 'split_at', 'split_first', 'split_last', 'split_off_first', 'split_off_last', 'partition', 'merge'],
+                note='split_off (rotate in place), split_at, split_first/last (+ split_off_ twins), merge and partition (partition_in_place + split_at) proved against their specifications (Parts.v: windows of one buffer) and replayed from the trace; PARTIAL: into_flattened, split_at_spare, capacities of split vectors and the independence of the parts under follow-up operations are checked on the implementation only'),
 }
 
 
@@ -595,15 +595,18 @@ def colls_verdict(ctx, pid, res, conf):
         msg = xl.split('::', 1)[1].strip() if '::' in xl else xl
         if not any(k in msg for k in conf['x']):
             continue
-        if pid == 'C16' and 'split_off' not in xl and 'parts probe' not in xl:
+        if pid == 'C16' and 'split_off' not in xl and 'parts probe' not in xl and 'parts case' not in xl:
             continue
-        if pid != 'C16' and 'parts probe' in xl:
+        if pid != 'C16' and ('parts probe' in xl or 'parts case' in xl):
             continue
         probe = ' probe ' in xl or ' reserve ::' in xl
         ctx.violations.append({'kind': 'colls-probe' if probe else 'colls-case', 'build': b, 'case': None if probe else case, 'what_fails': xl,
                                'signature': 'colls:%s' % re.sub(r'[0-9]+', 'N', msg)[:80],
                                'how_to_replay': 'tools/vcheck %s --replay <this file>' % pid})
-    rel = [(b, l) for (b, l) in res['mism'] if (pid != 'C16' or ' split_off ' in l)]
+    # a violation that carries its own case replays exactly: report those first
+    ctx.violations.sort(key=lambda v: v.get('kind') == 'colls-probe')
+    c16_ops = (' split_off ', ' split_at ', ' split_first;', ' split_last;', ' split_off_first;', ' split_off_last;', ' partition;', ' merge ')
+    rel = [(b, l) for (b, l) in res['mism'] if (pid != 'C16' or any(o in l for o in c16_ops))]
     if rel and not ctx.violations:
         # a disagreement between model and implementation on what is kept / handed out / dropped
         # is itself an observable difference from the proved behaviour: report the case
@@ -645,7 +648,7 @@ def check_colls(ctx):
             ctx.cov.update({
                 'evaluations': S['cases'],
                 'distinct_nontrivial': min(S['nontrivial'], S['distinct']),
-                'rule': 'one operation per case on a freshly built collection (BumpVec, MutBumpVec, FixedBumpVec, BumpBox<[T]>, MutBumpVecRev mirrored) of 0..12 identified elements; operations truncate/pop/remove/swap_remove/insert/push/retain/dedup_by/drain (both ends, dropped / keep_rest / leaked)/extract_if (early drop)/split_off with boundary and out-of-range arguments; callback answers scripted per invocation with a panic at a random invocation in 1/3 of the cases; a panicking Drop in 1/8; every case replayed on the extracted Coq model (kept / handed out / dropped / unwound / number of callback invocations compared) and on std::vec::Vec in lock-step; plus overflow probes of try_reserve(_exact). non-trivial = cases that dropped, handed out or unwound (counted by the driver); distinct = distinct (kind, op, renumbered input, answers, drop-panic set)',
+                'rule': 'one operation per case on a freshly built collection (BumpVec, MutBumpVec, FixedBumpVec, BumpBox<[T]>, MutBumpVecRev mirrored) of 0..12 identified elements; operations truncate/pop/remove/swap_remove/insert/push/retain/dedup_by/drain (both ends, dropped / keep_rest / leaked)/extract_if (early drop)/split_off with boundary and out-of-range arguments; callback answers scripted per invocation with a panic at a random invocation in 1/3 of the cases; a panicking Drop in 1/8; every case replayed on the extracted Coq model (kept / handed out / dropped / unwound / number of callback invocations compared) and on std::vec::Vec in lock-step; every 5th case is one operation dividing or merging a BumpBox<[T]> of 0..11 drop-counting elements (split_at incl. out of range, split_first/last, split_off_first/last, partition with per-element scripted answers, merge of two of three adjacent windows in any order), replayed on Parts.v; plus into_iter/splice/map_in_place/append (extras), overflow probes of try_reserve(_exact). non-trivial = cases that dropped, handed out or unwound (counted by the driver); distinct = distinct (kind, op, renumbered input, answers, drop-panic set)',
                 'samples': res['samples'],
                 'traces_validated_against_impl': S['cases'],
                 'input_distribution': {'by_kind_op': S['by_kind_op'], 'unwound': S['unwound'], 'with_drop_panic': S['with_drop_panic']},
